@@ -27,6 +27,7 @@ RULES_DOC["R6"] = "= C03.R1: a join returns only after it observed TERMINATED (a
 RULES_DOC["R7"] = "= C06.R1/R3/R4: every post-switch callback, including its cancel arm, leaves the blocked-unit counter balanced (a unit that terminates in a callback is not counted as blocked for ever)"
 RULES_DOC["R8"] = "= C01.R5: a unit cancelled in a yield-family callback is not pushed back (TERMINATED is final)"
 RULES_DOC["R9"] = "= C02.R5: every switch primitive release-stores RUNNING into the unit it switches to before the switch (a unit never executes while its state says READY)"
+RULES_DOC["X4"] = common.X4_DOC
 RULES_DOC.update({
     "R1": "role-based census of every store to ABTI_thread::state",
     "R2": "callers of ABTI_thread_terminate are the five terminating roles",
@@ -324,6 +325,7 @@ def rule_R5(P, rep):
 
 
 def run(P, rep, tier):
+    common.rule_X4(P, rep)
     common.run_shared(P, rep, which=("X1",))
     rule_R1(P, rep)
     rule_R2(P, rep)
